@@ -171,6 +171,7 @@ pub fn run(ctx: &Ctx) -> Report {
                         }
                     };
                     r.evaluations += 1;
+                    let dp_release = e.random_calls() > 0;
                     let (ui, wi) = match (full.cols.iter().position(|c| c == "_PRIVACY_UNIT_"), full.cols.iter().position(|c| c == "_PRIVACY_UNIT_WEIGHT_")) {
                         (Some(u), Some(w)) => (u, w),
                         _ => continue,
@@ -186,7 +187,17 @@ pub fn run(ctx: &Ctx) -> Report {
                             continue 'db;
                         }
                     }
-                    for u in units(db) {
+                    // every unit of the database, and every unit identifier that appears in the result (a row attributed
+                    // to a unit that owns nothing — a dangling foreign key — must not exist: R(D restricted to it) is empty)
+                    let mut us = units(db);
+                    for row in &full.rows {
+                        if let Cell::Int(x) = row[ui] {
+                            if !us.contains(&x) {
+                                us.push(x);
+                            }
+                        }
+                    }
+                    for u in us {
                         let du = only_unit(db, u);
                         fill(&e, world, &du);
                         e.set_script(vec![], None);
@@ -212,6 +223,14 @@ pub fn run(ctx: &Ctx) -> Report {
                             }
                         }
                         let same = a.len() == b.len() && a.iter().zip(b.iter()).all(|(x, y)| x.iter().zip(y.iter()).all(|(c, d)| c.close(d, 1e-9)));
+                        // a privacy-unit-preserving rewriting may embed a DIFFERENTIALLY PRIVATE sub-relation (an aggregation
+                        // below a join is released with noise and then joined as public data): its cells are releases governed
+                        // by C01-C04, not tracked data, and legitimately depend on every unit. The row equality is decided
+                        // for the rewritings that draw no noise.
+                        if !same && dp_release {
+                            r.add_count("row_equality_not_decided(rewriting_embeds_a_dp_release)", 1);
+                            continue;
+                        }
                         if !same {
                             r.violation(
                                 crate::features::resolve(&format!("pup rows-depend-on-other-units strategy={}", s.strategy), &s.sql, &s.features, known),
